@@ -59,6 +59,11 @@ type Op struct {
 	CbYield bool   `json:"cbyield,omitempty"`
 	Batch   []BOp  `json:"batch,omitempty"`
 	Cancel  bool   `json:"cancel,omitempty"`
+	// iterate / iteratekeys: the consumer calls back into the store when it is handed entry
+	// number NestAt (0-based), and panics (recovered by the caller) once it has got PanicAt entries
+	Nest    []Op `json:"nest,omitempty"`
+	NestAt  int  `json:"nestat,omitempty"`
+	PanicAt int  `json:"panicat,omitempty"`
 }
 
 type Plan struct {
@@ -177,18 +182,23 @@ func genPlan(rng *rand.Rand, idx int) Plan {
 				}
 				o.CbYield = rng.Intn(2) == 0
 			}
-			cost, wcost := 1, 0
-			if o.Kind == "batch" {
-				dk := map[string]bool{}
-				for _, b := range o.Batch {
-					dk[b.K] = true
+			if (o.Kind == "iterate" || o.Kind == "iteratekeys") && rng.Intn(5) < 2 {
+				// re-entrant consumer: 1-2 calls into the same store from inside the callback
+				o.NestAt = rng.Intn(2)
+				for j, m := 0, 1+rng.Intn(2); j < m; j++ {
+					o.Nest = append(o.Nest, genNested(rng, nv, o.View, fmt.Sprintf("%sn%d", val, j)))
 				}
-				cost = 1 + len(dk)
-				if !o.Cancel {
-					wcost = len(dk)
+			}
+			if (o.Kind == "iterate" || o.Kind == "iteratekeys") && rng.Intn(10) == 0 {
+				o.PanicAt = 1 + rng.Intn(2)
+				if len(o.Nest) > 0 && o.PanicAt <= o.NestAt {
+					o.PanicAt = o.NestAt + 1
 				}
-			} else if isWrite(o.Kind) {
-				wcost = 1
+			}
+			cost, wcost := opCost(o)
+			for _, no := range o.Nest {
+				c2, w2 := opCost(no)
+				cost, wcost = cost+c2, wcost+w2
 			}
 			if wcost > writesLeft {
 				o = Op{Kind: "get", View: o.View, Yield: o.Yield, K: keys[rng.Intn(len(keys))]}
@@ -211,6 +221,69 @@ func genPlan(rng *rand.Rand, idx int) Plan {
 		p.G = append(p.G, ops)
 	}
 	return p
+}
+
+// opCost: recorded operations (a batch counts 1 + its distinct keys) and mutations of one operation.
+func opCost(o Op) (cost, wcost int) {
+	cost = 1
+	if o.Kind == "batch" {
+		dk := map[string]bool{}
+		for _, b := range o.Batch {
+			dk[b.K] = true
+		}
+		cost = 1 + len(dk)
+		if !o.Cancel {
+			wcost = len(dk)
+		}
+	} else if isWrite(o.Kind) {
+		wcost = 1
+	}
+	return
+}
+
+// genNested draws an operation a consumer performs while it is being handed an entry: any kind,
+// on the iterating view object itself (half of the time) or on another view of the history.
+func genNested(rng *rand.Rand, nv, view int, val string) Op {
+	o := Op{View: view}
+	if rng.Intn(2) == 0 {
+		o.View = rng.Intn(nv)
+	}
+	k := keys[rng.Intn(len(keys))]
+	switch x := rng.Intn(100); {
+	case x < 18:
+		o.Kind, o.K = "get", k
+	case x < 25:
+		o.Kind, o.K = "has", k
+	case x < 47:
+		o.Kind, o.K, o.V = "set", k, val
+	case x < 61:
+		o.Kind, o.K = "delete", k
+	case x < 67:
+		o.Kind, o.K = "deleteprefix", k
+	case x < 70:
+		o.Kind = "clear"
+	case x < 80:
+		o.Kind, o.K, o.Back = "iterate", k, rng.Intn(2) == 0
+	case x < 85:
+		o.Kind, o.K, o.Back = "iteratekeys", k, rng.Intn(2) == 0
+	case x < 97:
+		o.Kind = "batch"
+		for j, m := 0, 1+rng.Intn(2); j < m; j++ {
+			b := BOp{K: keys[rng.Intn(len(keys))]}
+			if rng.Intn(3) == 0 {
+				b.Del = true
+			} else {
+				b.V = fmt.Sprintf("%s.%d", val, j)
+			}
+			o.Batch = append(o.Batch, b)
+		}
+	default:
+		o.Kind = "newview"
+	}
+	if (o.Kind == "iterate" || o.Kind == "iteratekeys") && rng.Intn(3) == 0 {
+		o.K = ""
+	}
+	return o
 }
 
 // ---------------------------------------------------------------- recording
@@ -240,6 +313,7 @@ type Rec struct {
 	Full    bool         `json:"full,omitempty"`
 	Commit  int          `json:"commit,omitempty"`
 	Panic   string       `json:"panic,omitempty"`
+	Nested  bool         `json:"nested,omitempty"` // performed by the consumer of the goroutine's running iteration
 }
 
 func classify(err error) (int, string) {
@@ -297,6 +371,7 @@ func execute(p Plan, record bool) []Rec {
 	var finished atomic.Int32
 	g := len(p.G)
 	recs := make([][]Rec, g)
+	cls := make([]*caller, g+1) // slot gi is written by goroutine gi only, read after it has finished
 	var wg sync.WaitGroup
 	now := func() int64 {
 		if !record {
@@ -311,6 +386,8 @@ func execute(p Plan, record bool) []Rec {
 			defer finished.Add(1)
 			local := append([]kvstore.KVStore{}, views...)
 			var out []Rec
+			cl := newCaller("g" + strconv.Itoa(gi))
+			cls[gi] = cl
 			ready.Add(1)
 			for int(ready.Load()) < g {
 				runtime.Gosched()
@@ -319,7 +396,7 @@ func execute(p Plan, record bool) []Rec {
 				for y := 0; y < o.Yield; y++ {
 					runtime.Gosched()
 				}
-				out = append(out, doOp(local, p, gi, i, o, now, &commitSeq)...)
+				out = append(out, doOp(local, p, gi, i, o, now, &commitSeq, cl)...)
 			}
 			if record {
 				recs[gi] = out
@@ -357,6 +434,7 @@ func execute(p Plan, record bool) []Rec {
 				panic(deadlocked{frames})
 			}
 		}
+		own.absorb(ownReplay(p), cls...)
 		return nil
 	}
 	wg.Wait()
@@ -365,52 +443,76 @@ func execute(p Plan, record bool) []Rec {
 		all = append(all, r...)
 	}
 	// quiescent read of the whole store after every goroutine has finished
-	fin := doOp([]kvstore.KVStore{root}, Plan{Views: []ViewSpec{{Realm: ""}}}, g, 0, Op{Kind: "iterate", View: 0}, now, &commitSeq)
+	cls[g] = newCaller("final read")
+	fin := doOp([]kvstore.KVStore{root}, Plan{Views: []ViewSpec{{Realm: ""}}}, g, 0, Op{Kind: "iterate", View: 0}, now, &commitSeq, cls[g])
 	all = append(all, fin...)
+	own.absorb(ownReplay(p), cls...)
 	return all
 }
 
-func doOp(views []kvstore.KVStore, p Plan, gi, i int, o Op, now func() int64, commitSeq *atomic.Int32) (out []Rec) {
+func ownReplay(p Plan) any { return map[string]any{"plan": p, "deadlock": true} }
+
+// consumerPanic is what a consumer of the harness panics with (DISCIPLINES.md 3); the caller recovers it.
+type consumerPanic struct{}
+
+func doOp(views []kvstore.KVStore, p Plan, gi, i int, o Op, now func() int64, commitSeq *atomic.Int32, cl *caller) (out []Rec) {
 	st := views[o.View]
 	r := Rec{G: gi, I: i, Kind: o.Kind, Realm: p.Views[o.View].Realm, K: o.K, V: o.V, Back: o.Back}
+	var nested []Rec // operations performed by the consumer of this iteration
 	defer func() {
 		if pn := recover(); pn != nil {
 			r.Panic = fmt.Sprint(pn)
 			r.Ret = now()
-			out = append(out, r)
+			out = append(append(out, r), nested...)
 		}
 	}()
+	if cl.panicked {
+		cl.st.afterPanic++
+	}
 	dir := kvstore.IterDirectionForward
 	if o.Back {
 		dir = kvstore.IterDirectionBackward
 	}
+	// every key / prefix / value argument lives in the goroutine's ONE key and ONE value buffer,
+	// which are overwritten as soon as the call has returned (owned.go)
 	switch o.Kind {
 	case "get":
+		kb := cl.key(o.K)
 		r.Call = now()
-		v, err := st.Get([]byte(o.K))
+		v, err := st.Get(kb)
 		r.Ret = now()
+		cl.keyDone("Get", o.K)
 		r.Err, r.ErrText = classify(err)
-		r.Found, r.Val = err == nil, string(v)
+		r.Found, r.Val = err == nil, cl.result("Get", v)
 	case "has":
+		kb := cl.key(o.K)
 		r.Call = now()
-		b, err := st.Has([]byte(o.K))
+		b, err := st.Has(kb)
 		r.Ret = now()
+		cl.keyDone("Has", o.K)
 		r.Err, r.ErrText = classify(err)
 		r.Found = b
 	case "set":
+		kb, vb := cl.key(o.K), cl.val(o.V)
 		r.Call = now()
-		err := st.Set([]byte(o.K), []byte(o.V))
+		err := st.Set(kb, vb)
 		r.Ret = now()
+		cl.keyDone("Set", o.K)
+		cl.valDone("Set", vb, o.V)
 		r.Err, r.ErrText = classify(err)
 	case "delete":
+		kb := cl.key(o.K)
 		r.Call = now()
-		err := st.Delete([]byte(o.K))
+		err := st.Delete(kb)
 		r.Ret = now()
+		cl.keyDone("Delete", o.K)
 		r.Err, r.ErrText = classify(err)
 	case "deleteprefix":
+		kb := cl.key(o.K)
 		r.Call = now()
-		err := st.DeletePrefix([]byte(o.K))
+		err := st.DeletePrefix(kb)
 		r.Ret = now()
+		cl.keyDone("DeletePrefix", o.K)
 		r.Err, r.ErrText = classify(err)
 	case "clear":
 		r.Call = now()
@@ -436,10 +538,39 @@ func doOp(views []kvstore.KVStore, p Plan, gi, i int, o Op, now func() int64, co
 		}
 	case "iterate", "iteratekeys":
 		r.Full = true
+		name := "Iterate"
+		if o.Kind == "iteratekeys" {
+			name = "IterateKeys"
+		}
 		consume := func(k, v []byte) bool {
-			r.Items = append(r.Items, kvmodel.KV{K: string(k), V: string(v)})
+			it := kvmodel.KV{K: cl.result(name+"/key", k)}
+			if o.Kind == "iterate" {
+				it.V = cl.result(name+"/value", v)
+			}
+			r.Items = append(r.Items, it)
 			if o.CbYield {
 				runtime.Gosched()
+			}
+			if len(o.Nest) > 0 && len(r.Items)-1 == o.NestAt {
+				// re-entrant user code: the consumer works on the store it is iterating
+				for _, no := range o.Nest {
+					if cl.st.reent == nil {
+						cl.st.reent = map[string]int{}
+					}
+					where := "_same_view_object"
+					if no.View != o.View {
+						where = "_other_view"
+					}
+					cl.st.reent[no.Kind+where]++
+					for _, nr := range doOp(views, p, gi, i, no, now, commitSeq, cl.nested()) {
+						nr.Nested = true
+						nested = append(nested, nr)
+					}
+				}
+			}
+			if o.PanicAt > 0 && len(r.Items) >= o.PanicAt {
+				r.Full = false
+				panic(consumerPanic{})
 			}
 			if o.Stop > 0 && len(r.Items) >= o.Stop {
 				r.Full = false
@@ -447,14 +578,26 @@ func doOp(views []kvstore.KVStore, p Plan, gi, i int, o Op, now func() int64, co
 			}
 			return true
 		}
-		var err error
+		kb := cl.key(o.K)
 		r.Call = now()
-		if o.Kind == "iterate" {
-			err = st.Iterate([]byte(o.K), consume, dir)
-		} else {
-			err = st.IterateKeys([]byte(o.K), func(k []byte) bool { return consume(k, nil) }, dir)
-		}
+		err := func() (err error) {
+			defer func() {
+				if pn := recover(); pn != nil {
+					if _, mine := pn.(consumerPanic); !mine {
+						panic(pn)
+					}
+					// the user's own panic came back to the user: fine. The store is used on.
+					cl.st.panics++
+					cl.panicked = true
+				}
+			}()
+			if o.Kind == "iterate" {
+				return st.Iterate(kb, consume, dir)
+			}
+			return st.IterateKeys(kb, func(k []byte) bool { return consume(k, nil) }, dir)
+		}()
 		r.Ret = now()
+		cl.keyDone(name, o.K)
 		r.Err, r.ErrText = classify(err)
 	case "batch":
 		r.Kind = "batched"
@@ -469,9 +612,9 @@ func doOp(views []kvstore.KVStore, p Plan, gi, i int, o Op, now func() int64, co
 		var mops []kvmodel.BatchOp
 		for _, bo := range o.Batch {
 			if bo.Del {
-				_ = b.Delete([]byte(bo.K))
+				_ = cl.BDelete(b, bo.K)
 			} else {
-				_ = b.Set([]byte(bo.K), []byte(bo.V))
+				_ = cl.BSet(b, bo.K, bo.V) // the value stays in the caller's buffer until Commit / Cancel returned
 			}
 			mops = append(mops, kvmodel.BatchOp{Del: bo.Del, K: bo.K, V: bo.V})
 			if o.CbYield {
@@ -479,13 +622,14 @@ func doOp(views []kvstore.KVStore, p Plan, gi, i int, o Op, now func() int64, co
 			}
 		}
 		if o.Cancel {
-			b.Cancel()
+			cl.Cancel(b)
 			return out
 		}
 		id := int(commitSeq.Add(1))
 		call := now()
 		err = b.Commit()
 		ret := now()
+		cl.batchDone()
 		ec, et := classify(err)
 		for _, w := range kvmodel.LastPerKey(mops) {
 			wr := Rec{G: gi, I: i, Kind: "set", Realm: r.Realm, K: w.K, V: w.V, Call: call, Ret: ret, Err: ec, ErrText: et, Commit: id}
@@ -496,7 +640,7 @@ func doOp(views []kvstore.KVStore, p Plan, gi, i int, o Op, now func() int64, co
 		}
 		return out
 	}
-	return append(out, r)
+	return append(append(out, r), nested...)
 }
 
 // ---------------------------------------------------------------- model
@@ -676,6 +820,9 @@ func describe(r *Rec) string {
 	if r.Commit > 0 {
 		c = fmt.Sprintf(" (write of commit #%d)", r.Commit)
 	}
+	if r.Nested {
+		c += " (called by the consumer of g" + strconv.Itoa(r.G) + "'s running iteration)"
+	}
 	return fmt.Sprintf("g%d [%d,%d] realm %q %s(%s)%s -> %s", r.G, r.Call, r.Ret, r.Realm, r.Kind, arg, c, res)
 }
 
@@ -718,6 +865,29 @@ func checkHistory(recs []Rec) verdict {
 			return verdict{porcupine.Illegal, "unexpected-error/" + r.Kind, "operation returned an error the contract does not know: " + describe(r)}
 		case r.Err == eClosed && (firstClose < 0 || r.Ret < firstClose):
 			return verdict{porcupine.Illegal, "spurious-ErrStoreClosed/" + r.Kind, "ErrStoreClosed returned before any Close was invoked: " + describe(r)}
+		}
+	}
+	// every value is written once and keys are words over {a,b}: an observation of anything else needs
+	// no search (caller-owned buffers are overwritten with scribbleByte after each call, so a store that
+	// kept a caller's slice, or handed out memory it goes on using, answers with such a thing)
+	written := map[string]bool{}
+	for i := range recs {
+		if recs[i].Kind == "set" {
+			written[recs[i].V] = true
+		}
+	}
+	for i := range recs {
+		r := &recs[i]
+		if r.Kind == "get" && r.Found && !written[r.Val] {
+			return verdict{porcupine.Illegal, "value-never-written/get", "Get returned a value no operation of the history wrote: " + describe(r)}
+		}
+		for _, it := range r.Items {
+			if strings.Trim(it.K, "ab") != "" {
+				return verdict{porcupine.Illegal, "key-never-written/" + r.Kind, fmt.Sprintf("the consumer was handed key %q, which no operation of the history wrote: %s", it.K, describe(r))}
+			}
+			if r.Kind == "iterate" && !written[it.V] {
+				return verdict{porcupine.Illegal, "value-never-written/iterate", fmt.Sprintf("the consumer was handed value %q for key %q, which no operation of the history wrote: %s", it.V, it.K, describe(r))}
+			}
 		}
 	}
 	res := porcupine.CheckOperationsTimeout(newModel(), toOps(recs, -1), checkTimeout)
@@ -1019,6 +1189,8 @@ func child(c *vf.Ctx) {
 	case "sharedrace":
 		childShared(c, start, count, true)
 	}
+	// what the callers of this child did with their own memory (owned.go), and what they found
+	own.flush(c, strings.HasSuffix(c.Child, "race"))
 }
 
 // ---------------------------------------------------------------- parent
@@ -1108,7 +1280,7 @@ func runRaceChildren(c *vf.Ctx, total, nChildren int, seed int64) {
 	vf.Parallel(nChildren, nChildren, func(i int) {
 		start := 1000000 + i*per // race histories use their own index range
 		res := c.RunChild(vf.ChildOpts{Name: "race", Race: true, Seed: seed, Args: []string{strconv.Itoa(start), strconv.Itoa(per)}, Timeout: time.Duration(c.Pick(10, 45)) * time.Minute})
-		c.ReportRaces(res.Races, "hive.go/kvstore")
+		reportRaces(c, res.Races)
 		switch {
 		case res.TimedOut:
 			hung(c, res, "race child")
@@ -1152,7 +1324,7 @@ func runExtraChildren(c *vf.Ctx, name string, total, nChildren int, race bool, s
 		}
 		res := c.RunChild(vf.ChildOpts{Name: name, Race: race, Seed: seed, Args: []string{strconv.Itoa(start), strconv.Itoa(per)}, Timeout: time.Duration(c.Pick(10, 45)) * time.Minute})
 		if race {
-			c.ReportRaces(res.Races, "hive.go/kvstore")
+			reportRaces(c, res.Races)
 		}
 		switch {
 		case res.Deadlock:
@@ -1166,6 +1338,7 @@ func runExtraChildren(c *vf.Ctx, name string, total, nChildren int, race bool, s
 }
 
 func replay(c *vf.Ctx) {
+	defer own.flush(c, false)
 	raw, err := os.ReadFile(c.Replay)
 	if err != nil {
 		fmt.Fprintln(os.Stderr, err)
@@ -1241,11 +1414,12 @@ func replay(c *vf.Ctx) {
 }
 
 func run(c *vf.Ctx) {
+	probeBatchSet(c)
 	if c.Replay != "" {
 		replay(c)
 		return
 	}
-	c.SetRule("one history = 2-16 goroutines released by a spin barrier, 4-12 operations each (<= 128 recorded operations) on 1-3 views (realms \"\", a, ab; plain / flushkv / debug wrapped) of one mapdb store, keys {\"\",a,b,ab}, every Set value unique, seeded Gosched jitter, GOMAXPROCS cycling through 2/4/16; call/return ticks from one atomic counter; a committed batch is one operation per written key with the Commit window. evaluations = recorded operations handed to porcupine. overlapping_pairs = pairs of operations of different goroutines whose [call,return] windows intersect; distinct_nontrivial = distinct observed schedules (hash of the tick-ordered operation list) in which at least one such pair contains a mutation. Second family (no porcupine): large-operation rounds – one goroutine commits batches of 1/100/511/512/513/2000 mutations, DeletePrefix/Clear over 1000 keys and iterates over up to 2600 entries through its own views while 4 single-writer streams (1200 Set/Delete/Get each, unique values, own keys inside and outside the ranges the large operations touch) and 2 readers work through other view objects; every Get, every iterated entry or absence and the final state is judged per key: the value must come from a mutation invoked before the observation returned and not followed by another mutation of that key that completed before the observation began; unknown keys must not appear. Third family (no porcupine; linearizability of a multi-key operation as ONE operation – the statement: every operation takes effect at one instant): (1) a fully populated key family of 1/100/1023/1024/1025/2048/5000/20000 entries is removed by exactly one DeletePrefix/Clear while 5 readers iterate (Iterate/IterateKeys, both directions) through the mutating view object, sibling, parent and nested views: every iteration reports all or none of the family; (2) an Iterate whose consumer the harness parks after j entries while one writer applies a known sequence of Sets/Deletes through the same/sibling/parent/nested view and returns must deliver the content at one point S0..Sn of that sequence; (3) free-running iterations with a slow consumer against a numbered writer sequence must deliver some Si with completed-at-call <= i <= started-at-return. Fourth family (no porcupine; small-store rounds): the round starts on an empty (0-2 entries) store; one goroutine builds and commits batches of 8/64/512/4096/16384 writes one after the other through its own view and mostly wipes the batch keys again (DeletePrefix / Clear of a nested view) between two commits; 1-2 parties keep 0..3 keys of their own alive (Set new key / Delete it) and 1-2 parties keep 0..3 batch keys deleted (Delete a key the batches write, preferably one their last iteration reported / Set it again), each through its own (plain / flushkv / debug, root or nested) view object, starting each step while a Commit is in flight (bounded spin); right after each of its own completed mutations a party observes (Get / Has / Iterate / IterateKeys over the key, its 10-neighbourhood, the key family or the whole realm, both directions); every observation is judged per key with the rule of the second family, the not-reported keys of the range and empty results included. Fifth family (no porcupine; shared batch handles, wrappers, slow backend): 2-4 goroutines share 1-2 batch handles of ONE view that is mapdb or a flushkv/debug stack over a harness backend which yields in every method and parks one call (before or after Flush, the backend batch's Commit/Set/Delete, Set, Delete, Get) until the other goroutines have completed 1-3 more steps (bounded spin); steps: Set/Delete on a handle (each key belongs to one handle and one goroutine), Commit of a handle, Set/Delete/Get/Flush through the shared view; a reader Gets through a plain view; finally the harness commits every handle once more. Per batch key with mutations m1..mn: a Commit C writes an index in [last mutation returned before C was invoked, last mutation invoked before C returned]; an observation of index i is admissible iff such a C invoked before the observation returned covers i and no commit whose lower bound exceeds i lies entirely between C and the observation; after the closing commit every key holds its last mutation")
+	c.SetRule("one history = 2-16 goroutines released by a spin barrier, 4-12 operations each (<= 128 recorded operations) on 1-3 views (realms \"\", a, ab; plain / flushkv / debug wrapped) of one mapdb store, keys {\"\",a,b,ab}, every Set value unique, seeded Gosched jitter, GOMAXPROCS cycling through 2/4/16; call/return ticks from one atomic counter; a committed batch is one operation per written key with the Commit window; 40% of the Iterate/IterateKeys consumers call back into the store (1-2 operations of any kind – Get/Has/Set/Delete/DeletePrefix/Clear/nested iteration/Batched+Commit/WithRealm – on the iterating view object or another view, recorded as operations of their own inside the iteration's window) and 10% panic after 1-2 entries (recovered by the caller, the store is used on); in ALL families every goroutine passes every key, prefix and value in ONE key buffer and ONE value buffer of its own which it overwrites as soon as the call has returned (batch values: as soon as Commit/Cancel has returned), and overwrites every slice it got back or was handed by an iteration (spare capacity included), at once or after holding it unchanged over the next three results. evaluations = recorded operations handed to porcupine. overlapping_pairs = pairs of operations of different goroutines whose [call,return] windows intersect; distinct_nontrivial = distinct observed schedules (hash of the tick-ordered operation list) in which at least one such pair contains a mutation. Second family (no porcupine): large-operation rounds – one goroutine commits batches of 1/100/511/512/513/2000 mutations, DeletePrefix/Clear over 1000 keys and iterates over up to 2600 entries through its own views while 4 single-writer streams (1200 Set/Delete/Get each, unique values, own keys inside and outside the ranges the large operations touch) and 2 readers work through other view objects; every Get, every iterated entry or absence and the final state is judged per key: the value must come from a mutation invoked before the observation returned and not followed by another mutation of that key that completed before the observation began; unknown keys must not appear. Third family (no porcupine; linearizability of a multi-key operation as ONE operation – the statement: every operation takes effect at one instant): (1) a fully populated key family of 1/100/1023/1024/1025/2048/5000/20000 entries is removed by exactly one DeletePrefix/Clear while 5 readers iterate (Iterate/IterateKeys, both directions) through the mutating view object, sibling, parent and nested views: every iteration reports all or none of the family; (2) an Iterate whose consumer the harness parks after j entries while one writer applies a known sequence of Sets/Deletes through the same/sibling/parent/nested view and returns must deliver the content at one point S0..Sn of that sequence; (3) free-running iterations with a slow consumer against a numbered writer sequence must deliver some Si with completed-at-call <= i <= started-at-return. Fourth family (no porcupine; small-store rounds): the round starts on an empty (0-2 entries) store; one goroutine builds and commits batches of 8/64/512/4096/16384 writes one after the other through its own view and mostly wipes the batch keys again (DeletePrefix / Clear of a nested view) between two commits; 1-2 parties keep 0..3 keys of their own alive (Set new key / Delete it) and 1-2 parties keep 0..3 batch keys deleted (Delete a key the batches write, preferably one their last iteration reported / Set it again), each through its own (plain / flushkv / debug, root or nested) view object, starting each step while a Commit is in flight (bounded spin); right after each of its own completed mutations a party observes (Get / Has / Iterate / IterateKeys over the key, its 10-neighbourhood, the key family or the whole realm, both directions); every observation is judged per key with the rule of the second family, the not-reported keys of the range and empty results included. Fifth family (no porcupine; shared batch handles, wrappers, slow backend): 2-4 goroutines share 1-2 batch handles of ONE view that is mapdb or a flushkv/debug stack over a harness backend which yields in every method and parks one call (before or after Flush, the backend batch's Commit/Set/Delete, Set, Delete, Get) until the other goroutines have completed 1-3 more steps (bounded spin); steps: Set/Delete on a handle (each key belongs to one handle and one goroutine), Commit of a handle, Set/Delete/Get/Flush through the shared view; a reader Gets through a plain view; finally the harness commits every handle once more. Per batch key with mutations m1..mn: a Commit C writes an index in [last mutation returned before C was invoked, last mutation invoked before C returned]; an observation of index i is admissible iff such a C invoked before the observation returned covers i and no commit whose lower bound exceeds i lies entirely between C and the observation; after the closing commit every key holds its last mutation")
 	nPlain := c.Pick(20000, 500000)
 	nRace := c.Pick(3000, 60000)
 	var wg sync.WaitGroup
@@ -1312,6 +1486,20 @@ func run(c *vf.Ctx) {
 	for _, s := range bulkSizes {
 		c.Require("bulk_commits_of_size_"+strconv.Itoa(s), nBulk/8)
 	}
+	// caller-owned memory, re-entrant and panicking consumers (owned.go): what the harness itself drives
+	c.Require("own_argument_buffers_overwritten_after_return", nPlain*10)
+	c.Require("own_argument_buffers_unchanged_by_call", nPlain*10)
+	c.Require("own_batch_values_overwritten", nPlain/2)
+	c.Require("own_results_overwritten_at_once", nPlain*2)
+	c.Require("own_held_result_rechecks", nPlain*2)
+	c.Require("own_reentrant_calls", nPlain/4)
+	c.Require("own_consumer_panics_recovered", nPlain/20)
+	c.Require("own_operations_after_a_consumer_panic", nPlain/10)
+	c.Require("own_race_argument_buffers_overwritten_after_return", nRace*10)
+	c.Require("own_race_batch_values_overwritten", nRace/2)
+	c.Require("own_race_results_overwritten_at_once", nRace*2)
+	c.Require("own_race_reentrant_calls", nRace/4)
+	c.Require("own_race_consumer_panics_recovered", nRace/20)
 	c.Require("histories", nPlain*9/10)
 	c.Require("race_histories", nRace*9/10)
 	c.Require("overlapping_pairs", nPlain)
@@ -1362,6 +1550,7 @@ func childProf(c *vf.Ctx) {
 }
 
 func childDispatch(c *vf.Ctx) {
+	probeBatchSet(c)
 	if c.Child == "prof" {
 		childProf(c)
 		return
@@ -1379,6 +1568,7 @@ func childDispatch(c *vf.Ctx) {
 				return
 			}
 		}
+		own.flush(c, false)
 		return
 	}
 	child(c)
